@@ -1,6 +1,5 @@
 """Utility functions for hypergraph."""
 
-import functools
 import hashlib
 import inspect
 import types
@@ -28,61 +27,46 @@ def ensure_tuple(value: str | tuple[str, ...]) -> tuple[str, ...]:
     return value
 
 
-_MAX_FINGERPRINT_DEPTH = 8
-_hash_nesting = 0  # recursion guard: a captured callable is fingerprinted through hash_definition
+_MAX_CALLABLE_NESTING = 3
 
 
-def _fingerprint(value: Any, depth: int = 0) -> str:
+def _fingerprint(value: Any, nesting: int = 0) -> str:
     """Text that identifies a value captured by a definition, for hashing.
 
     Used for closure cells, defaults, code constants and the state of a bound
-    instance. Three requirements (each was a defect of plain ``repr``):
-    - equal in every interpreter process, or entries of a persistent cache are
-      never hit after a restart: no memory addresses (objects with the default
-      repr contribute their type and state instead), sets in sorted order;
-    - structured, so that values cannot run into one another: ``(1, 23)`` and
-      ``(12, 3)`` differ;
+    instance. It is ``repr(value)`` made safe for that purpose:
+    - containers are written element by element (values cannot run into one
+      another), sets in sorted order, captured functions and methods by their
+      own definition hash: for plain data and functions the text is the same in
+      every interpreter process, so entries of a persistent cache are hit again
+      after a restart (every functools.wraps-decorated function captures one);
+    - anything else is its repr. An object with the default repr is told apart
+      by its address: distinct within a process, never equal across processes
+      (a definition that captures such an object cannot be cached persistently,
+      but it never shares an entry with one that captured another object);
     - never raises (a node must be constructible whatever its function
-      captured): anything that cannot be examined contributes its type only.
+      captured): a value whose repr fails contributes its type only.
     """
     try:
         kind = type(value)
-        if depth > _MAX_FINGERPRINT_DEPTH:
-            return f"<{kind.__module__}.{kind.__qualname__}>"
-        if value is None or kind in (bool, int, float, complex, str, bytes):
-            return f"{kind.__name__}:{value!r}"
-        if kind in (list, tuple):
-            return kind.__name__ + "[" + ",".join(_fingerprint(v, depth + 1) for v in value) + "]"
-        if kind is dict:
-            items = sorted((_fingerprint(k, depth + 1), _fingerprint(v, depth + 1)) for k, v in value.items())
-            return "dict{" + ",".join(f"{k}={v}" for k, v in items) + "}"
         if kind in (set, frozenset):
-            return kind.__name__ + "{" + ",".join(sorted(_fingerprint(v, depth + 1) for v in value)) + "}"
+            return kind.__name__ + "{" + ",".join(sorted(_fingerprint(v, nesting) for v in value)) + "}"
+        if kind in (list, tuple):
+            return kind.__name__ + "[" + ",".join(_fingerprint(v, nesting) for v in value) + "]"
+        if kind is dict:
+            return "dict{" + ",".join(f"{_fingerprint(k, nesting)}={_fingerprint(v, nesting)}" for k, v in value.items()) + "}"
         if isinstance(value, types.CodeType):
-            return "code(" + _code_fingerprint(value, depth + 1) + ")"
-        if isinstance(value, type):
-            return f"class:{value.__module__}.{value.__qualname__}"
-        if inspect.ismodule(value):
-            return f"module:{value.__name__}"
-        if isinstance(value, functools.partial):
-            return "partial(" + _fingerprint(value.func, depth + 1) + _fingerprint(value.args, depth + 1) + _fingerprint(value.keywords, depth + 1) + ")"
-        if callable(value) and (hasattr(value, "__code__") or hasattr(value, "__func__") or hasattr(value, "__wrapped__")):
-            return "callable:" + hash_definition(value)
-        state = getattr(value, "__dict__", None)
-        if state is None:
-            slots = [s for klass in kind.__mro__ for s in getattr(klass, "__slots__", ())]
-            if slots:
-                state = {s: getattr(value, s) for s in slots if isinstance(s, str) and hasattr(value, s)}
-        if isinstance(state, dict):
-            return f"object:{kind.__module__}.{kind.__qualname__}" + _fingerprint(dict(state), depth + 1)
-        return f"<{kind.__module__}.{kind.__qualname__}>"
-    except Exception:  # noqa: BLE001 - e.g. RecursionError for very deep values, attribute access that fails
-        return f"<{type(value).__qualname__}>"
+            return "code(" + _code_fingerprint(value, nesting) + ")"
+        if isinstance(value, (types.FunctionType, types.MethodType)) and nesting < _MAX_CALLABLE_NESTING:
+            return "callable:" + _hash_definition(value, nesting + 1)
+        return repr(value)
+    except Exception:  # noqa: BLE001 - RecursionError for very deep values, a __repr__ that fails
+        return f"<{type(value).__module__}.{type(value).__qualname__}>"
 
 
-def _code_fingerprint(code: types.CodeType, depth: int = 0) -> str:
+def _code_fingerprint(code: types.CodeType, nesting: int = 0) -> str:
     """Bytecode, constants (nested code objects included) and the names a code object uses."""
-    consts = ",".join(_fingerprint(c, depth + 1) for c in code.co_consts)
+    consts = ",".join(_fingerprint(c, nesting) for c in code.co_consts)
     return f"{code.co_code.hex()};consts[{consts}];names{code.co_names!r}"
 
 
@@ -106,18 +90,10 @@ def hash_definition(func: Callable) -> str:
         >>> len(hash_definition(foo))
         64
     """
-    global _hash_nesting
-    if _hash_nesting >= 4:
-        # a callable captured by a callable captured by ... : identify by name
-        return hashlib.sha256(f"{getattr(func, '__module__', '')}:{getattr(func, '__qualname__', repr(type(func)))}".encode()).hexdigest()
-    _hash_nesting += 1
-    try:
-        return _hash_definition(func)
-    finally:
-        _hash_nesting -= 1
+    return _hash_definition(func, 0)
 
 
-def _hash_definition(func: Callable) -> str:
+def _hash_definition(func: Callable, nesting: int) -> str:
     # Prefer source code — most precise, captures comments and formatting
     try:
         source = inspect.getsource(func)
@@ -135,25 +111,29 @@ def _hash_definition(func: Callable) -> str:
             # Includes the names of the globals, attributes and methods the code
             # uses (x.upper() and x.lower() have equal co_code and co_consts) and
             # nested code objects (generator expressions, inner lambdas).
-            h.update(_code_fingerprint(code).encode())
+            h.update(_code_fingerprint(code, nesting).encode())
             # Include function defaults to distinguish f(x=1) from f(x=2)
-            h.update(b"|defaults:" + _fingerprint(getattr(func, "__defaults__", None)).encode())
-            h.update(b"|kwdefaults:" + _fingerprint(getattr(func, "__kwdefaults__", None)).encode())
+            h.update(b"|defaults:" + _fingerprint(getattr(func, "__defaults__", None), nesting).encode())
+            h.update(b"|kwdefaults:" + _fingerprint(getattr(func, "__kwdefaults__", None), nesting).encode())
         # Functions made by one factory share their source text and differ only
         # in what they captured: the captured values are part of the definition.
         names = getattr(code, "co_freevars", None) or ()
         for index, cell in enumerate(getattr(func, "__closure__", None) or ()):
             name = names[index] if index < len(names) else f"<cell {index}>"
             try:
-                contents = _fingerprint(cell.cell_contents)
+                contents = _fingerprint(cell.cell_contents, nesting)
             except ValueError:
                 contents = "<empty_cell>"
             h.update(f"|cell {name}={contents}".encode())
         # A bound method captures its instance the way a closure captures a cell:
-        # Scaler(2).apply and Scaler(10).apply are different definitions.
+        # Scaler(2).apply and Scaler(10).apply are different definitions. The
+        # instance is read through its attributes (one level), not its repr,
+        # which for most classes is just an address.
         bound_to = getattr(func, "__self__", None)
         if bound_to is not None and not inspect.ismodule(bound_to):
-            h.update(b"|self:" + _fingerprint(bound_to).encode())
+            state = getattr(bound_to, "__dict__", None)
+            described = _fingerprint(dict(state), nesting) if isinstance(state, dict) and not isinstance(bound_to, type) else _fingerprint(bound_to, nesting)
+            h.update(f"|self:{type(bound_to).__module__}.{type(bound_to).__qualname__}:{described}".encode())
         return h.hexdigest()
 
     # Name-based fallback — for builtins/C extensions/functools.partial
